@@ -4,7 +4,7 @@ from __future__ import annotations
 from hypothesis import strategies as st
 
 from .. import gen
-from ..cells import build_any, cells, cells_of_desc, cells_of_str, show, text_of
+from ..cells import PlainSub, TaggedStr, as_subclass, build_any, cells, cells_of_desc, cells_of_str, show, text_of
 from ..common import Res, call, exc_str, hyp_campaign
 
 PROP = "C06"
@@ -26,8 +26,14 @@ SHARDS = {"quick": 4, "thorough": 16}
 def operand(spec):
     """spec: {"str": "..."} or {"desc": [...]} -> (real value, cells)"""
     if "str" in spec:
+        if spec.get("sub"):
+            # a str subclass instance is a str: its characters count, not what its __str__ prints
+            return (TaggedStr if spec["sub"] == 1 else PlainSub)(spec["str"]), cells_of_str(spec["str"])
         return spec["str"], cells_of_str(spec["str"])
-    return build_any(spec["desc"], spec.get("build", "chunks"), spec.get("obs", 0)), cells_of_desc(spec["desc"])
+    f = build_any(spec["desc"], spec.get("build", "chunks"), spec.get("obs", 0))
+    if spec.get("sub"):
+        f = as_subclass(f)  # an instance of a FmtStr subclass is a FmtStr: same text, same formatting, same results
+    return f, cells_of_desc(spec["desc"])
 
 
 def check_value(res, what, got, expected, **ctx):
@@ -50,6 +56,9 @@ def run_case(case):
     if op == "slices":
         desc = case["desc"]
         f = build_any(desc, case.get("build", "chunks"), case.get("obs", 0))
+        if case.get("sub"):
+            f = as_subclass(f)
+            res.label("fmtstr_subclass_instance")
         if case.get("obs") or case.get("build") in gen.DERIVED_BUILDS:
             res.label("operand_with_history")
         base = cells_of_desc(desc)
@@ -154,16 +163,19 @@ def run_case(case):
     return res
 
 
+SUB = st.sampled_from([0, 0, 0, 0, 0, 1])
+
+
 def strategy():
     d = gen.desc_sized(alphabet=gen.NARROW + "é中", max_runs=5, max_len=3, big_runs=24, big_len=70)
     operand_s = st.one_of(
-        st.fixed_dictionaries({"desc": d, "build": gen.BUILDS, "obs": gen.OBS}),
-        st.fixed_dictionaries({"str": gen.plain_str(4)}),
+        st.fixed_dictionaries({"desc": d, "build": gen.BUILDS, "obs": gen.OBS, "sub": SUB}),
+        st.fixed_dictionaries({"str": gen.plain_str(4), "sub": st.sampled_from([0, 0, 0, 1, 2])}),
     )
-    fs = st.fixed_dictionaries({"desc": d, "build": gen.BUILDS, "obs": gen.OBS})
+    fs = st.fixed_dictionaries({"desc": d, "build": gen.BUILDS, "obs": gen.OBS, "sub": SUB})
     return st.one_of(
-        st.fixed_dictionaries({"op": st.just("slices"), "desc": d, "build": gen.BUILDS, "obs": gen.OBS}),
-        st.fixed_dictionaries({"op": st.just("slices"), "desc": d, "build": gen.BUILDS, "obs": gen.OBS}),
+        st.fixed_dictionaries({"op": st.just("slices"), "desc": d, "build": gen.BUILDS, "obs": gen.OBS, "sub": SUB}),
+        st.fixed_dictionaries({"op": st.just("slices"), "desc": d, "build": gen.BUILDS, "obs": gen.OBS, "sub": SUB}),
         st.fixed_dictionaries({"op": st.just("add"), "left": operand_s, "right": fs}),
         st.fixed_dictionaries({"op": st.just("add"), "left": fs, "right": operand_s}),
         st.fixed_dictionaries({"op": st.just("mul"), "value": fs, "n": st.one_of(st.integers(0, 4), st.integers(0, 4), st.sampled_from([7, 16, 33, 64, 100]))}),
